@@ -75,7 +75,7 @@ def check(R, F):
     for name, width, field, mx in (('set_ipv4_prefix_len', 32, 'ipv4_netmask', 'u32::MAX'), ('set_ipv6_prefix_len', 64, 'ipv6_netmask', 'u64::MAX')):
         fn = F.fn('server::rrl::RrlParams::' + name)
         ws = [(b, st) for b, blk in enumerate(fn.blocks) for st in blk['stmts'] if st['k'] == 'assign' and st['lhs']['p'] and st['lhs']['p'][-1].get('n') == field]
-        vals = sorted((paths.show_operand(fn, st['rv']['op']) if st['rv']['k'] == 'use' else '%s(%s,%s)' % (st['rv']['op'], paths.show_operand(fn, st['rv']['a']), paths.show_operand(fn, st['rv']['b'])), tuple(paths.dom_guards(fn, b, variants=False))) for b, st in ws)
+        vals = sorted((paths.show_operand(fn, st['rv']['op']) if st['rv']['k'] == 'use' else '%s(%s,%s)' % (st['rv']['op'], paths.show_operand(fn, st['rv']['a']), paths.show_operand(fn, st['rv']['b'])), tuple(paths.dom_guards(fn, b))) for b, st in ws)
         exprs = [v[0] for v in vals]
         want_shift = 'Shl(%s,Sub(%d_u8,arg2))' % (mx, width)
         ok = len(vals) == 2 and any(e.startswith('0_') for e in exprs) and want_shift in exprs
